@@ -7,6 +7,8 @@ require (
 	github.com/blevesearch/segment v0.9.0
 	github.com/blugelabs/bluge v0.0.0
 	github.com/blugelabs/bluge_segment_api v0.2.0
+	github.com/blugelabs/ice v1.0.0
+	github.com/blugelabs/ice/v2 v2.0.1
 	golang.org/x/text v0.3.0
 )
 
@@ -17,8 +19,6 @@ require (
 	github.com/blevesearch/mmap-go v1.0.4 // indirect
 	github.com/blevesearch/snowballstem v0.9.0 // indirect
 	github.com/blevesearch/vellum v1.0.7 // indirect
-	github.com/blugelabs/ice v1.0.0 // indirect
-	github.com/blugelabs/ice/v2 v2.0.1 // indirect
 	github.com/caio/go-tdigest v3.1.0+incompatible // indirect
 	github.com/dgryski/go-metro v0.0.0-20180109044635-280f6062b5bc // indirect
 	github.com/golang/snappy v0.0.1 // indirect
